@@ -108,6 +108,7 @@ type Obligation struct {
 	Values  []string // terms to get-value on sat (model extraction)
 	ValueNames []string
 	Props   []string
+	Budget  int // seconds; 0 = default retry budget
 	// results
 	Result string // unsat | sat | unknown | timeout | error
 	Solver string
@@ -246,6 +247,9 @@ func (x *FnExec) oblName(kind, detail string) string {
 
 func (x *FnExec) addObl(kind, detail, reach, goal, desc string, pos token.Pos) *Obligation {
 	o := &Obligation{Name: x.oblName(kind, detail), Kind: kind, Func: funcKey(x.top), Prefix: len(x.q.body), Reach: reach, Goal: goal, Desc: desc, Q: x.q, Props: x.props}
+	if x.topSpec != nil {
+		o.Budget = x.topSpec.Budget
+	}
 	if pos.IsValid() {
 		p := x.eng.prog.SSA.Fset.Position(pos)
 		o.Pos = fmt.Sprintf("%s:%d", strings.TrimPrefix(p.Filename, x.eng.prog.RepoDir+"/"), p.Line)
